@@ -268,6 +268,69 @@ package sdf
 //@   ensures [encloses] d < 0 ==> bb.Contains(p)
 //@ end
 
+//@ func RotateCopy2D
+//@   property C01
+//@   id ENC
+//@   opt search p
+//@   opt solid-operands
+//@   forall p v2.Vec
+//@   requires n > 0
+//@   requires ord2(sdf.BoundingBox())
+//@   requires forall q v2.Vec :: enc2(sdf, q)
+//@   let d = r.Evaluate(p)
+//@   let e = conv.P2ToV2(p2.Vec{p.Length(), SawTooth(math.Atan2(p.Y, p.X), r.theta)})
+//@   let bb = r.BoundingBox()
+//@   let rho = p.Length()
+//@   let ang = SawTooth(math.Atan2(p.Y, p.X), r.theta)
+//@   assert [radius-squared] sq(rho) == vlen2(p.X, p.Y)
+//@   assert [unit-direction] sq(cos(ang)) + sq(sin(ang)) == 1
+//@   assert [mapped-point-is-polar] e.X == rho*cos(ang) && e.Y == rho*sin(ang)
+//@   focus radius-squared unit-direction mapped-point-is-polar
+//@   assert [sector-mapping-preserves-radius] e.Length2() == vlen2(p.X, p.Y)
+//@   unfocus
+//@   assert [box-radius] sq(bb.Max.X) == boxr2(sdf.BoundingBox()) && bb.Max.X >= 0
+//@   assert [box-shape] bb.Max.Y == bb.Max.X && bb.Min.X == -bb.Max.X && bb.Min.Y == -bb.Max.X
+//@   generalize e
+//@   generalize bb
+//@   use sq_bound(e.X, sdf.BoundingBox().Min.X, sdf.BoundingBox().Max.X)
+//@   use sq_bound(e.Y, sdf.BoundingBox().Min.Y, sdf.BoundingBox().Max.Y)
+//@   assert [in-box-in-disc] sdf.BoundingBox().Contains(e) ==> e.Length2() <= boxr2(sdf.BoundingBox())
+//@   ensures [ordered] ord2(bb)
+//@   ensures [encloses] d < 0 ==> bb.Contains(p)
+//@ end
+
+//@ func RotateCopy3D
+//@   property C01
+//@   id ENC
+//@   opt search p
+//@   opt solid-operands
+//@   forall p v3.Vec
+//@   requires num > 0
+//@   requires ord3(sdf.BoundingBox())
+//@   requires forall q v3.Vec :: enc3(sdf, q)
+//@   let d = r.Evaluate(p)
+//@   let e = conv.P2ToV2(p2.Vec{v2.Vec{p.X, p.Y}.Length(), SawTooth(math.Atan2(p.Y, p.X), r.theta)})
+//@   let bb = r.BoundingBox()
+//@   let ob = sdf.BoundingBox()
+//@   let rho = v2.Vec{p.X, p.Y}.Length()
+//@   let ang = SawTooth(math.Atan2(p.Y, p.X), r.theta)
+//@   assert [radius-squared] sq(rho) == vlen2(p.X, p.Y)
+//@   assert [unit-direction] sq(cos(ang)) + sq(sin(ang)) == 1
+//@   assert [mapped-point-is-polar] e.X == rho*cos(ang) && e.Y == rho*sin(ang)
+//@   focus radius-squared unit-direction mapped-point-is-polar
+//@   assert [sector-mapping-preserves-radius] e.Length2() == vlen2(p.X, p.Y)
+//@   unfocus
+//@   assert [box-radius-covers-every-vertex] bb.Max.X >= 0 && sq(bb.Max.X) >= vlen2(ob.Min.X, ob.Min.Y) && sq(bb.Max.X) >= vlen2(ob.Max.X, ob.Min.Y) && sq(bb.Max.X) >= vlen2(ob.Min.X, ob.Max.Y) && sq(bb.Max.X) >= vlen2(ob.Max.X, ob.Max.Y)
+//@   assert [box-shape] bb.Max.Y == bb.Max.X && bb.Min.X == -bb.Max.X && bb.Min.Y == -bb.Max.X && bb.Min.Z == ob.Min.Z && bb.Max.Z == ob.Max.Z
+//@   generalize e
+//@   generalize bb
+//@   use sq_bound(e.X, ob.Min.X, ob.Max.X)
+//@   use sq_bound(e.Y, ob.Min.Y, ob.Max.Y)
+//@   assert [in-box-in-disc] ob.Min.X <= e.X && e.X <= ob.Max.X && ob.Min.Y <= e.Y && e.Y <= ob.Max.Y ==> e.Length2() <= sq(bb.Max.X)
+//@   ensures [ordered] ord3(bb)
+//@   ensures [encloses] d < 0 ==> bb.Contains(p)
+//@ end
+
 // BEGIN GENERATED SHAPES
 //-----------------------------------------------------------------------------
 // C01 (generated block list, see /verif/tools/gen_shape_contracts.py): one ENC contract per constructor.
@@ -541,20 +604,6 @@ package sdf
 //@   ensures [encloses] d < 0 ==> r.BoundingBox().Contains(p)
 //@ end
 
-//@ func RotateCopy3D
-//@   property C01
-//@   id ENC
-//@   opt search p
-//@   opt solid-operands
-//@   forall p v3.Vec
-//@   requires num > 0
-//@   requires ord3(sdf.BoundingBox())
-//@   requires forall q v3.Vec :: enc3(sdf, q)
-//@   let d = r.Evaluate(p)
-//@   ensures [ordered] ord3(r.BoundingBox())
-//@   ensures [encloses] d < 0 ==> r.BoundingBox().Contains(p)
-//@ end
-
 //@ func Circle2D
 //@   property C01
 //@   id ENC
@@ -718,20 +767,6 @@ package sdf
 //@   opt search p
 //@   opt solid-operands
 //@   forall p v2.Vec
-//@   requires ord2(sdf.BoundingBox())
-//@   requires forall q v2.Vec :: enc2(sdf, q)
-//@   let d = r.Evaluate(p)
-//@   ensures [ordered] ord2(r.BoundingBox())
-//@   ensures [encloses] d < 0 ==> r.BoundingBox().Contains(p)
-//@ end
-
-//@ func RotateCopy2D
-//@   property C01
-//@   id ENC
-//@   opt search p
-//@   opt solid-operands
-//@   forall p v2.Vec
-//@   requires n > 0
 //@   requires ord2(sdf.BoundingBox())
 //@   requires forall q v2.Vec :: enc2(sdf, q)
 //@   let d = r.Evaluate(p)
@@ -1275,6 +1310,11 @@ package sdf
 //@   ensures [one-lipschitz] sq(dp - dq) <= p.Sub(q).Length2()
 //@ end
 
+//@ lemma lagrange2(a real, b real, c real, d real)
+//@   property C03
+//@   ensures [lagrange-identity] (sq(a) + sq(b))*(sq(c) + sq(d)) - sq(a*c + b*d) == sq(a*d - b*c)
+//@ end
+
 //@ func Revolve3D
 //@   property C03
 //@   id LIP
@@ -1282,6 +1322,17 @@ package sdf
 //@   requires forall a v2.Vec, b v2.Vec :: lip2(sdf, a, b)
 //@   let dp = r.Evaluate(p)
 //@   let dq = r.Evaluate(q)
+//@   let rp = sqrt(p.X*p.X + p.Y*p.Y)
+//@   let rq = sqrt(q.X*q.X + q.Y*q.Y)
+//@   assert [radii] rp >= 0 && rq >= 0 && sq(rp) == sq(p.X) + sq(p.Y) && sq(rq) == sq(q.X) + sq(q.Y)
+//@   use lagrange2(p.X, p.Y, q.X, q.Y)
+//@   generalize rp
+//@   generalize rq
+//@   assert [cauchy-schwarz] sq(p.X*q.X + p.Y*q.Y) <= sq(rp*rq)
+//@   assert [dot-below-product-of-radii] p.X*q.X + p.Y*q.Y <= rp*rq
+//@   assert [radius-map-is-nonexpansive] sq(rp - rq) <= sq(p.X - q.X) + sq(p.Y - q.Y)
+//@   assert [lipschitz-instance] isnil(err) ==> sq(dp - dq) <= sq(rp - rq) + sq(p.Z - q.Z)
+//@   focus radius-map-is-nonexpansive lipschitz-instance
 //@   ensures [one-lipschitz] isnil(err) ==> sq(dp - dq) <= p.Sub(q).Length2()
 //@ end
 
